@@ -368,6 +368,27 @@ struct SplitHarness : vh::Harness {
       }
       return "bad-op";
     }
+    if (op == "createreset" && w.size() == 6) {
+      // all parts 0..n-1 read from ONE object made by InputSplit::Create(uri, k0, n0), moved from part to part with
+      // ResetPartition(k, n) (the other way of "reading parts 0..num_parts-1")
+      unsigned k0 = strtoul(w[2].c_str(), nullptr, 10), n0 = strtoul(w[3].c_str(), nullptr, 10), n = strtoul(w[4].c_str(), nullptr, 10);
+      std::string res = "recs";
+      try {
+        std::unique_ptr<InputSplit> s(InputSplit::Create(real_uri().c_str(), k0, n0, w[1].c_str()));
+        InputSplit::Blob b;
+        size_t cnt = 0;
+        for (unsigned k = 0; k < n; ++k) {
+          s->ResetPartition(k, n);
+          while (s->NextRecord(&b)) {
+            res += " " + vh::hex(std::string(static_cast<const char *>(b.dptr), b.size));
+            if (++cnt > 20000) return "runaway";
+          }
+        }
+      } catch (const dmlc::Error &) {
+        return "err:check";
+      }
+      return res + " end";
+    }
     if (op == "create" && w.size() == 5) {
       unsigned k = strtoul(w[2].c_str(), nullptr, 10), n = strtoul(w[3].c_str(), nullptr, 10);
       std::string dir = out_dir + "/cfiles";
@@ -742,6 +763,28 @@ struct SplitHarness : vh::Harness {
       ref_lines(files[i], &want_text);
       for (auto &r : file_recs[i]) want_rec.push_back(r);
     }
+    // ---- all parts through ResetPartition on one InputSplit::Create object (createreset): every line / record once
+    for (size_t i = 0; i < c.ops.size(); ++i) {
+      auto w = vh::split_ws(c.ops[i]);
+      if (w.empty() || w[0] != "createreset" || w.size() != 6) continue;
+      bool is_text = w[1] == "text";
+      if (is_text && any_nul) continue;
+      std::string pr = is_text ? "C03" : "C04";
+      auto t = vh::split_ws(res[i]);
+      std::vector<std::string> got;
+      if (t.empty() || t[0] != "recs" || t.back() != "end") {
+        fail->push_back("class=none prop=" + pr + " reading all parts through ResetPartition on one created split failed: " + res[i].substr(0, 100));
+        continue;
+      }
+      for (size_t j = 1; j + 1 < t.size(); ++j) {
+        std::string b = t[j] == "-" ? std::string() : vh::unhex(t[j]);
+        if (is_text) canon_text(b, &got); else got.push_back(b);
+      }
+      const std::vector<std::string> &want = is_text ? want_text : want_rec;
+      if (got != want)
+        fail->push_back("class=none prop=" + pr + " parts 0.." + w[4] + "-1 read through ResetPartition on a split created as (" + w[2] + "," +
+                        w[3] + ") deliver " + show(got).substr(0, 300) + " expected " + show(want).substr(0, 300));
+    }
     // ---- cover groups: runs of `new .. k n ..` with k = 0..n-1, each followed by its consumption ops
     if (cover) {
       size_t i = 0;
@@ -1082,15 +1125,20 @@ struct Gen {
       R.run_case(c);
     }
     // (3) default-size buffer (what the hook shrinks) and the InputSplit::Create path on real files
-    for (int it = 0; it < 3; ++it) {
+    for (int it = 0; it < 12; ++it) {
       Case c;
       c.kind = "cover default-buffer";
       size_t nf = 1 + rng.below(3);
       for (size_t i = 0; i < nf; ++i) c.ops.push_back("file " + std::to_string(i) + " " + vh::hex(random_text(rng, 200)));
       unsigned n = 1 + static_cast<unsigned>(rng.below(4));
-      add_cover_group(&c, "text", n, 2UL << 20UL, it == 2 ? 1 : 0, it == 1 ? "chunk" : "rec", nullptr, 0);
+      add_cover_group(&c, "text", n, 2UL << 20UL, it % 3 == 2 ? 1 : 0, it % 3 == 1 ? "chunk" : "rec", nullptr, 0);
       for (unsigned k = 0; k < n; ++k)
         c.ops.push_back("create text " + std::to_string(k) + " " + std::to_string(n) + " " + std::to_string(InputSplitBase::kBufferSize));
+      for (int g = 0; g < 4; ++g) {
+        unsigned n0 = 1 + static_cast<unsigned>(rng.below(3)), k0 = static_cast<unsigned>(rng.below(n0)), nn = 1 + static_cast<unsigned>(rng.below(4));
+        c.ops.push_back("createreset text " + std::to_string(k0) + " " + std::to_string(n0) + " " + std::to_string(nn) + " " +
+                        std::to_string(InputSplitBase::kBufferSize));
+      }
       R.run_case(c);
     }
     // (4) splits constructed from URI strings over directory trees
@@ -1225,7 +1273,7 @@ struct Gen {
       R.run_case(c);
     }
     // (3) default-size buffer + Create on real files
-    for (int it = 0; it < 3; ++it) {
+    for (int it = 0; it < 12; ++it) {
       Case c;
       c.kind = "cover default-buffer";
       size_t nf = 1 + rng.below(3);
@@ -1238,6 +1286,11 @@ struct Gen {
       add_cover_group(&c, "recordio", n, 2UL << 20UL, it == 2 ? 1 : 0, it == 1 ? "chunkrd 2" : "rec", nullptr, 0);
       for (unsigned k = 0; k < n; ++k)
         c.ops.push_back("create recordio " + std::to_string(k) + " " + std::to_string(n) + " " + std::to_string(InputSplitBase::kBufferSize));
+      for (int g = 0; g < 4; ++g) {
+        unsigned n0 = 1 + static_cast<unsigned>(rng.below(3)), k0 = static_cast<unsigned>(rng.below(n0)), nn = 1 + static_cast<unsigned>(rng.below(4));
+        c.ops.push_back("createreset recordio " + std::to_string(k0) + " " + std::to_string(n0) + " " + std::to_string(nn) + " " +
+                        std::to_string(InputSplitBase::kBufferSize));
+      }
       R.run_case(c);
     }
     // (4) malformed inputs: correspondence of the CHECK paths (no flag-1 headers: the reassembly loop of
